@@ -534,7 +534,7 @@ pub fn run(run: &mut Run) {
         sub-resolution parts, max, max+1 unit, 2^32 ms, huge. Race length: all 256 bytes x {STA, RST} (complete); Laps(n) / Hours(n) for \
         n in 0..=2000 and usize boundaries against the reference mapping (1-99, 100-1000 floored to the 10-lap grid, 1-48 hours, else \
         practice or an error). Non-trivial = value > 1 unit and (encode side) within 2 units of the range edge, beyond it, or not a \
-        multiple of the resolution."
+        multiple of the resolution. Further parts: the same conversions on packets whose other fields hold generated values (only the field's bytes may change), and wire values in frames whose other bytes hold anything (refused, or decoded to exactly the wire value and written back unchanged)."
         .into();
     run.assumptions = vec!["field offsets, widths and scales come from spec/insim9.spec; SMALL_SSP/SSG use the crate's 10 ms scale (unit not pinned down by InSim.txt)".into()];
     // decode side, complete for 16-bit fields
